@@ -121,6 +121,11 @@ def op_list(cfg, prop):
                 # the default is (identical to) a value that may be stored: found-vs-default must not be inferred from the result
                 ('pop', k, v0), ('get', k, v1)]
     ops += [('len',), ('iter',), ('keys',), ('values',), ('items',), ('popitem',), ('clear',)]
+    # the rest of what a dict answers: too many arguments, repr, comparison with something that is not an archive
+    ops += [('pop_toomany', k0), ('setdefault_toomany', k1), ('repr',), ('eq_foreign',)]
+    for k in (k0, k1, k2):
+        if not hasattr(k, '__iter__'):
+            ops += [('popkeys_scalar', k), ('popkeys_scalar', k, 'd')]
     ops += [('popkeys', (k0, k1)), ('popkeys', (k1, k2)), ('popkeys', (k0, k1), 'd'), ('popkeys', (k2, k0), 'd'), ('popkeys', ()),
             ('popkeys', (k1, k0), v0),
             # a key listed twice: without a default the call must fail and remove nothing
@@ -134,6 +139,7 @@ def op_list(cfg, prop):
     ops += [('copy',), ('copyname',), ('eq_other',)]
     if BACKENDS[cfg['backend']][0] in archmc.PERSISTENT and not cfg.get('cached'):
         ops.append(('reopen',))
+        ops.append(('reopen_seed', ((k2, v1),)))
     if prop == 'C04':
         ops.append(('mutate',))
     return ops
@@ -201,9 +207,9 @@ def apply_op(S, op, prop='C03'):
     base = {'engine': 'archmc', 'backend': backend, 'cached': bool(S.cached), 'op': op[0]}
     k = op[0]
     a = S.a
-    touched = [op[1]] if k in ('setitem', 'getitem', 'delitem', 'contains', 'get', 'pop', 'setdefault') else \
+    touched = [op[1]] if k in ('setitem', 'getitem', 'delitem', 'contains', 'get', 'pop', 'setdefault', 'pop_toomany', 'setdefault_toomany', 'popkeys_scalar') else \
         list(op[1]) if k == 'popkeys' else [q for q, _ in op[1]] if k.startswith('update') else \
-        [S.keys[1]] if k == 'mutate' else [S.keys[2]] if k == 'copyname' else []
+        [S.keys[1]] if k == 'mutate' else [S.keys[2]] if k == 'copyname' else [q for q, _ in op[1]] if k == 'reopen_seed' else []
     pres = [key_pre(S, q) for q in touched]
     pre = 'present' if 'present' in pres else ('alias-present' if 'alias-present' in pres else ('absent' if pres else '-'))
     nontrivial = pre != 'absent' and pre != '-'
@@ -225,7 +231,7 @@ def apply_op(S, op, prop='C03'):
         sig.update(kw)
         out.append((sig, detail))
 
-    if k in ('copy', 'copyname', 'eq_other', 'reopen', 'mutate'):
+    if k in ('copy', 'copyname', 'eq_other', 'reopen', 'reopen_seed', 'mutate'):
         nontrivial = bool(S.m)
         try:
             _special(S, op, bad)
@@ -245,6 +251,13 @@ def apply_op(S, op, prop='C03'):
                 bad('no-keyerror', '%r: a dict raises KeyError, the archive %s' % (
                     _opr(op), 'returned %s' % describe(got[1]) if got[0] == 'ret' else 'raised %s' % got[1]),
                     expected='KeyError', observed=obs_class(got))
+        elif want == ('exc', 'ANY'):
+            pass
+        elif want == ('exc', 'TypeError'):
+            if got[0] != 'exc' or got[1] != 'TypeError':
+                bad('no-typeerror', '%r: a dict raises TypeError, the archive %s' % (
+                    _opr(op), 'returned %s' % describe(got[1]) if got[0] == 'ret' else 'raised %s' % got[1]),
+                    expected='TypeError', observed=obs_class(got))
         elif want == ('exc', 'ENCODE'):
             if got[0] != 'exc':
                 bad('unencodable-accepted', '%r: storing a value the backend cannot encode did not raise' % (_opr(op),),
@@ -363,6 +376,11 @@ def _special(S, op, bad):
     elif k == 'reopen':
         archmc.close(a)
         S.a = open_backend(S.backend, S.root, 'arch', S.cached)
+    elif k == 'reopen_seed':
+        # a fresh handle from the public constructor with initial contents (dict=...): merged into what the store holds
+        archmc.close(a)
+        S.a = open_backend(S.backend, S.root, 'arch', S.cached, seed=op[1])
+        S.m.update(dict(op[1]))
     elif k == 'mutate':
         # store a mutable object, mutate it afterwards: a persistent archive holds the store-time snapshot
         if fam not in archmc.PERSISTENT or S.cached:
